@@ -672,27 +672,115 @@ package originium
 //@ func (*originium.levelManager).fileName -> r
 //@ trusted path.Join/fmt.Sprintf of the directory and "<level>-<idx>.db": no effect on the heap; the result is left unconstrained
 //@ assigns nothing
+// C09 (compaction glue, dataflow only): every selected table is fetched from its own level and
+// index and its entries are appended to the merge input; the merge input is all of them and nothing
+// else by count; MergeVersions' result goes unchanged to discardStaleEntries, that result unchanged
+// to filter.Build and table.Build (with the output level); the handle installed at the back of the
+// output level carries that index, that filter and an index number one above maxLevelIdx of the
+// output level; the file written has that level and number in its name and receives exactly the bytes
+// Build returned; the handles and files removed are those of the selected tables. Which tables are
+// selected (overlapL0/overlapLN/boundary) is not under contract.
 //@ ghost CompOut Str
 //@ ghost CompCreated Bool
+//@ ghost GlArr Int
+//@ ghost GlOff Int
+//@ ghost GlLen Int
+//@ ghost GlBf Int
+//@ ghost GlIdx T(table.Index)
+//@ ghost GlBytesArr Int
+//@ ghost GlBytesOff Int
+//@ ghost GlBytesLen Int
+//@ ghost GlMaxIdx Int
+//@ ghost GlName Str
 //@ define outDurable(bytes) = CompCreated && DskSync[CompOut] == len(DskData[CompOut]) && DskData[CompOut] == string(bytes) && len(bytes) == len(DskData[CompOut])
 //@ func (*originium.levelManager).compactL0
-//@ props C12 C14 C03
+//@ props C12 C14 C03 C09
 //@ holds lm.mu
-//@ thin ^assert|^pre\.os\.|^pre\..*os\.File
+//@ thin ^assert|^loop[01]\.|^pre\.os\.|^pre\..*os\.File
 //@ assigns writeset
 //@ after_call os.OpenFile#0: ghost CompOut = FdPath[ref(result0)]
 //@ after_call os.OpenFile#0: ghost CompCreated = (result1 == nil)
 //@ before_call os.Remove#0: assert outDurable(tableBytes)
 //@ before_call os.Remove#1: assert outDurable(tableBytes)
+//@ before_call (*originium.levelManager).fetch#0: assert arg1 == 1 && arg2 == unbox(tableHandle, tab.Value).levelIdx && arg3 == unbox(tableHandle, tab.Value).dataBlockIndex.DataBlock
+//@ before_call (*originium.levelManager).fetch#1: assert arg1 == 0 && arg2 == unbox(tableHandle, tab.Value).levelIdx && arg3 == unbox(tableHandle, tab.Value).dataBlockIndex.DataBlock
+//@ before_call kway.MergeVersions#0: assert arrid(arg0) == arrid(dataBlockList) && offof(arg0) == offof(dataBlockList) && len(arg0) == len(l1Tables) + len(l0Tables)
+//@ after_call kway.MergeVersions#0: ghost GlArr = arrid(result)
+//@ after_call kway.MergeVersions#0: ghost GlOff = offof(result)
+//@ after_call kway.MergeVersions#0: ghost GlLen = len(result)
+//@ before_call (*originium.levelManager).discardStaleEntries#0: assert arrid(arg1) == GlArr && offof(arg1) == GlOff && len(arg1) == GlLen
+//@ after_call (*originium.levelManager).discardStaleEntries#0: ghost GlArr = arrid(result)
+//@ after_call (*originium.levelManager).discardStaleEntries#0: ghost GlOff = offof(result)
+//@ after_call (*originium.levelManager).discardStaleEntries#0: ghost GlLen = len(result)
+//@ before_call filter.Build#0: assert arrid(arg0) == GlArr && offof(arg0) == GlOff && len(arg0) == GlLen
+//@ before_call table.Build#0: assert arrid(arg0) == GlArr && offof(arg0) == GlOff && len(arg0) == GlLen && arg2 == 1
+//@ after_call filter.Build#0: ghost GlBf = ref(result)
+//@ after_call table.Build#0: ghost GlIdx = result0
+//@ after_call table.Build#0: ghost GlBytesArr = arrid(result1)
+//@ after_call table.Build#0: ghost GlBytesOff = offof(result1)
+//@ after_call table.Build#0: ghost GlBytesLen = len(result1)
+//@ before_call (*originium.levelManager).maxLevelIdx#0: assert arg1 == 1
+//@ after_call (*originium.levelManager).maxLevelIdx#0: ghost GlMaxIdx = result
+//@ before_call (*list.List).PushBack#0: assert arg0 == lm.levels[1] && unbox(tableHandle, arg1).levelIdx == GlMaxIdx + 1 && unbox(tableHandle, arg1).dataBlockIndex == GlIdx && ref(bf) == GlBf
+//@ before_call (*originium.levelManager).fileName#0: assert arg1 == 1 && arg2 == GlMaxIdx + 1
+//@ after_call (*originium.levelManager).fileName#0: ghost GlName = result
+//@ before_call os.OpenFile#0: assert arg0 == GlName
+//@ before_call (*os.File).Write#0: assert arrid(arg1) == GlBytesArr && offof(arg1) == GlBytesOff && len(arg1) == GlBytesLen
+//@ before_call (*list.List).Remove#0: assert arg0 == lm.levels[0] && arg1 == e
+//@ before_call (*list.List).Remove#1: assert arg0 == lm.levels[1] && arg1 == e
+//@ before_call (*originium.levelManager).fileName#1: assert arg1 == 0 && arg2 == unbox(tableHandle, e.Value).levelIdx
+//@ after_call (*originium.levelManager).fileName#1: ghost GlName = result
+//@ before_call os.Remove#0: assert arg0 == GlName
+//@ before_call (*originium.levelManager).fileName#2: assert arg1 == 1 && arg2 == unbox(tableHandle, e.Value).levelIdx
+//@ after_call (*originium.levelManager).fileName#2: ghost GlName = result
+//@ before_call os.Remove#1: assert arg0 == GlName
+//@ loop 0:
+//@   invariant len(dataBlockList) == rangeindex + 1
+//@ loop 1:
+//@   invariant len(dataBlockList) == len(l1Tables) + rangeindex + 1
 //@ func (*originium.levelManager).compactLN
-//@ props C12 C14 C03
+//@ props C12 C14 C03 C09
 //@ holds lm.mu
-//@ thin ^assert|^pre\.os\.|^pre\..*os\.File
+//@ thin ^assert|^loop[01]\.|^pre\.os\.|^pre\..*os\.File
 //@ assigns writeset
 //@ after_call os.OpenFile#0: ghost CompOut = FdPath[ref(result0)]
 //@ after_call os.OpenFile#0: ghost CompCreated = (result1 == nil)
 //@ before_call os.Remove#0: assert outDurable(tableBytes)
 //@ before_call os.Remove#1: assert outDurable(tableBytes)
+//@ before_call (*originium.levelManager).fetch#0: assert arg1 == n + 1 && arg2 == unbox(tableHandle, tab.Value).levelIdx && arg3 == unbox(tableHandle, tab.Value).dataBlockIndex.DataBlock
+//@ before_call (*originium.levelManager).fetch#1: assert arg1 == n && arg2 == unbox(tableHandle, lnTable.Value).levelIdx && arg3 == unbox(tableHandle, lnTable.Value).dataBlockIndex.DataBlock
+//@ before_call kway.MergeVersions#0: assert arrid(arg0) == arrid(dataBlockList) && offof(arg0) == offof(dataBlockList) && len(arg0) == len(ln1Tables) + 1
+//@ after_call kway.MergeVersions#0: ghost GlArr = arrid(result)
+//@ after_call kway.MergeVersions#0: ghost GlOff = offof(result)
+//@ after_call kway.MergeVersions#0: ghost GlLen = len(result)
+//@ before_call (*originium.levelManager).discardStaleEntries#0: assert arrid(arg1) == GlArr && offof(arg1) == GlOff && len(arg1) == GlLen
+//@ after_call (*originium.levelManager).discardStaleEntries#0: ghost GlArr = arrid(result)
+//@ after_call (*originium.levelManager).discardStaleEntries#0: ghost GlOff = offof(result)
+//@ after_call (*originium.levelManager).discardStaleEntries#0: ghost GlLen = len(result)
+//@ before_call filter.Build#0: assert arrid(arg0) == GlArr && offof(arg0) == GlOff && len(arg0) == GlLen
+//@ before_call table.Build#0: assert arrid(arg0) == GlArr && offof(arg0) == GlOff && len(arg0) == GlLen && arg2 == n + 1
+//@ after_call filter.Build#0: ghost GlBf = ref(result)
+//@ after_call table.Build#0: ghost GlIdx = result0
+//@ after_call table.Build#0: ghost GlBytesArr = arrid(result1)
+//@ after_call table.Build#0: ghost GlBytesOff = offof(result1)
+//@ after_call table.Build#0: ghost GlBytesLen = len(result1)
+//@ before_call (*originium.levelManager).maxLevelIdx#0: assert arg1 == n + 1
+//@ after_call (*originium.levelManager).maxLevelIdx#0: ghost GlMaxIdx = result
+//@ before_call (*list.List).PushBack#0: assert arg0 == lm.levels[n + 1] && unbox(tableHandle, arg1).levelIdx == GlMaxIdx + 1 && unbox(tableHandle, arg1).dataBlockIndex == GlIdx && ref(bf) == GlBf
+//@ before_call (*originium.levelManager).fileName#0: assert arg1 == n + 1 && arg2 == GlMaxIdx + 1
+//@ after_call (*originium.levelManager).fileName#0: ghost GlName = result
+//@ before_call os.OpenFile#0: assert arg0 == GlName
+//@ before_call (*os.File).Write#0: assert arrid(arg1) == GlBytesArr && offof(arg1) == GlBytesOff && len(arg1) == GlBytesLen
+//@ before_call (*list.List).Remove#0: assert arg0 == lm.levels[n] && arg1 == lnTable
+//@ before_call (*list.List).Remove#1: assert arg0 == lm.levels[n + 1] && arg1 == e
+//@ before_call (*originium.levelManager).fileName#1: assert arg1 == n && arg2 == unbox(tableHandle, lnTable.Value).levelIdx
+//@ after_call (*originium.levelManager).fileName#1: ghost GlName = result
+//@ before_call os.Remove#0: assert arg0 == GlName
+//@ before_call (*originium.levelManager).fileName#2: assert arg1 == n + 1 && arg2 == unbox(tableHandle, e.Value).levelIdx
+//@ after_call (*originium.levelManager).fileName#2: ghost GlName = result
+//@ before_call os.Remove#1: assert arg0 == GlName
+//@ loop 0:
+//@   invariant len(dataBlockList) == rangeindex + 1
 //@ func (*originium.levelManager).overlapL0
 //@ props C12
 //@ trusted no functional contract yet (C09 compaction glue); only the lock clause below is used, and it is checked on the body by the C12 sweep
